@@ -517,17 +517,26 @@ package decoder
 //@   requires dst.len >= 0 && region(dst.data, dst.len * rsize(elemType))
 //@   assigns M[dst.data .. dst.data + dst.len * rsize(elemType))
 
+// Scratch slice headers live in the decoder's pool between calls. The pool invariant - a header's array has
+// room for cap elements, cap >= 1 - is assumed of what Get returns and proved of everything releaseSlice is given
+// and of the header newSlice builds itself.
+//@ spec scratchOK(h, size) := h != nil && h.cap >= 1 && h.cap < 70368744177664 && h.data != nil && region(h.data, h.cap * size)
 //@ func (*sliceDecoder).newSlice(d, src) (r)
-//@   props C07
-//@   trusted takes a scratch slice header from the decoder's pool (or allocates one) with room for the existing elements
-//@   requires d != nil && src != nil
-//@   ensures r != nil && r.cap >= 1 && 0 <= r.len && r.len <= r.cap && r.len == old(src.len) && r.cap < 70368744177664 && r.data != nil && region(r.data, r.cap * d.size)
+//@   props C07 C06
+//@   requires d != nil && src != nil && d.size >= 1 && d.size < 1048576 && d.size == rsize(d.elemType)
+//@   requires src.len >= 0 && src.len <= src.cap && src.cap < 70368744177664
+// the pool of a slice decoder holds scratch headers only (its New function and releaseSlice are the only sources)
+//@   postassume Get: holdsPtrTo(result, sliceHeader) && scratchOK(cast(dataOf(result), sliceHeader), d.size)
+//@   ensures r != nil && r.cap >= 1 && r.cap < 70368744177664 && 0 <= r.len && r.len <= r.cap && r.len == old(src.len)
+// the array behind the header has room for cap elements (what the decode loop relies on when it writes element idx < cap)
+//@   ensures r.data != nil && region(r.data, r.cap * d.size)
 //@   ensures d.size == old(d.size) && d.elemType == old(d.elemType) && d.isElemPointerType == old(d.isElemPointerType) && d.valueDecoder == old(d.valueDecoder)
-//@   assigns M[r.data .. r.data + r.cap * d.size)
+//@   assigns M[r.data .. r.data + r.cap * d.size), sliceHeader.len
 
 //@ func (*sliceDecoder).releaseSlice(d, p) ()
 //@   props C07
 //@   trusted sync.Pool.Put
+//@   requires d != nil && scratchOK(p, d.size)
 //@   assigns nothing
 
 // The slice decoder writes element data only inside the scratch array it obtained (and regrows), each element
